@@ -20,6 +20,8 @@ RULE = ('generated directory trees on tmpfs (<= 40 entries, depth <= 3) mixing .
         'orphans under faults, nothing created or modified, nothing deleted with -k/--usecompiled. '
         'distinct = digest of tree shape + options + faults; non-trivial = the tree has an orphan '
         'or a look-alike')
+RULE += (' One spec in six narrows discovery with -s/--package (the clean-up must not follow).')
+RULE += (' After an unlink fault a run that goes on to discovery must have removed every other orphan.')
 RULE += (' ' + 'Later additions: a concurrent writer creates the source file beside a stale-looking bytecode file of another directory just before the n-th unlink: that file must survive.')
 REAL_VS_STUB = {
     'real': 'Runner.configure, options, Find feature, remove_stale_bytecode, walk_with_symlinks, '
@@ -116,6 +118,19 @@ def gen(seed):
         opt['usecompiled'] = True
     if rng.random() < 0.3:
         opt['ignore_dir'] = rng.sample(['skipme', 'deep', 'sub', 'pkgb'], rng.randint(1, 2))
+    if seed % 6 == 4 and all(k == 'path' for k, _ in roots):
+        # -s/--package narrows DISCOVERY to some packages; the clean-up still covers every
+        # searched source directory (sub-packages and ignored names included)
+        tops = [d['name'] for d in tree['dirs'] if d['name'].isidentifier()
+                and d['name'] != '__pycache__']
+        if tops:
+            pk = rng.choice(tops)
+            node = [d for d in tree['dirs'] if d['name'] == pk][0]
+            subs = [d['name'] for d in node['dirs'] if d['name'].isidentifier()
+                    and d['name'] != '__pycache__']
+            if subs and rng.random() < 0.5:
+                pk += '.' + rng.choice(subs)
+            opt['package'] = [pk]
     faults = {}
     if rng.random() < 0.25:
         faults[str(rng.randint(1, 4))] = rng.choice(['FileNotFoundError', 'PermissionError'])
@@ -188,6 +203,8 @@ def run(spec, ctx):
         args.append('--usecompiled')
     for d in opt.get('ignore_dir') or []:
         args += ['--ignore_dir', d]
+    for pk in opt.get('package') or []:
+        args += ['-s', pk]
     args.append('--list-tests')
     want = model_orphans(spec['tree'], opt, spec.get('ext'))
     simos = fssim.SimOS(rng, {int(k): v for k, v in spec.get('faults', {}).items()},
@@ -231,7 +248,24 @@ def run(spec, ctx):
                             'orphans %r were not deleted (deleted %r); run %s'
                             % (sorted(missing), sorted(deleted),
                                'raised %r' % (res.raised[:2],) if res.raised else 'returned')))
-    if res.raised and not faulted:
+    if missing and faulted and not res.raised:
+        # an unlink failed (the file vanished under the runner's hands / may not be removed) and
+        # the runner decided to go on to discovery: then it went on with a clean tree, but for
+        # the files it could not remove - "deletes every such orphan" before discovery
+        excused = {os.path.relpath(p, os.path.realpath(top)) for p in simos.fault_paths} | \
+                  {rel(p) for p in simos.fault_paths}
+        left = missing - excused
+        if left:
+            viols.append(C.viol('C15/orphan-not-deleted/discovery-went-on-after-unlink-fault',
+                                'an unlink failed (%s), the run went on to discovery, but the '
+                                'orphans %r are still there (deleted %r)'
+                                % (', '.join(spec['faults'].values()), sorted(left),
+                                   sorted(deleted))))
+    unimportable = bool(opt.get('package')) and res.raised and \
+        ('in import_name' in res.raised[2] or 'in test_dirs' in res.raised[2])
+    if res.raised and not faulted and not unimportable:
+        # (-s naming something that cannot be imported ends the run in discovery, AFTER the
+        # clean-up: the deleted set above is still judged)
         viols.append(C.viol('C15/run-aborted/%s' % _ws.frames_sig(res.raised),
                             repr(res.raised)))
     res.out = []      # listing output contains import errors of the generated files: irrelevant
